@@ -361,6 +361,13 @@ pub mod net {
             Ok((TcpStream { id: c }, a))
         }
 
+        /// `accept_std`: the accepted connection before it is wrapped (`TcpStream::from_stream`)
+        pub fn accept_std(&self) -> io::Result<(RawTcpStream, SocketAddr)> {
+            dsim::yield_point(dsim::Op::Small);
+            let (c, a) = dsim::with(|w| w.tcp_accept(self.id))?;
+            Ok((RawTcpStream(c), a))
+        }
+
         pub fn local_addr(&self) -> io::Result<SocketAddr> {
             Ok(dsim::with(|w| w.listeners[self.id].addr))
         }
@@ -372,6 +379,24 @@ pub mod net {
         }
         pub fn take_error(&self) -> io::Result<Option<io::Error>> {
             Ok(None)
+        }
+    }
+
+    /// What `accept_std` hands out: the connection as a std stream would be, not yet registered
+    pub struct RawTcpStream(pub dsim::ConnId);
+
+    impl RawTcpStream {
+        pub fn set_nonblocking(&self, _on: bool) -> io::Result<()> {
+            Ok(())
+        }
+        pub fn set_nodelay(&self, _on: bool) -> io::Result<()> {
+            Ok(())
+        }
+        pub fn peer_addr(&self) -> io::Result<SocketAddr> {
+            Ok(dsim::with(|w| w.conns[self.0].src))
+        }
+        pub fn local_addr(&self) -> io::Result<SocketAddr> {
+            Ok(dsim::with(|w| w.conns[self.0].dst))
         }
     }
 
@@ -396,6 +421,9 @@ pub mod net {
     }
 
     impl TcpStream {
+        pub fn from_stream(raw: RawTcpStream) -> io::Result<TcpStream> {
+            Ok(TcpStream { id: raw.0 })
+        }
         pub fn shutdown(&self, _how: Shutdown) -> io::Result<()> {
             dsim::yield_point(dsim::Op::Small);
             dsim::with(|w| w.tcp_shutdown(self.id));
